@@ -181,6 +181,7 @@ func (w *World) do(st Step) bool {
 		}
 		w.add(Rec{"e": "stop", "cause": ""})
 		go w.svc.Stop(nil)
+		w.settleStop()
 		return true
 	case "mqlost":
 		if !w.running {
@@ -188,6 +189,7 @@ func (w *World) do(st Step) bool {
 		}
 		w.add(Rec{"e": "stop", "cause": "mq connection lost"})
 		w.mq.lose(errors.New("mq connection lost"))
+		w.settleStop()
 		return true
 	case "start":
 		if w.running {
@@ -299,6 +301,28 @@ func (w *World) send(st Step) bool {
 	n, q := w.splitRID(st.C, st.RID)
 	w.add(Rec{"e": "creq", "c": st.C, "id": id, "m": st.M, "rid": st.RID, "n": n, "q": q, "key": key(n, q), "action": st.Action, "count": count})
 	return w.sendFrame(st.C, mustJSON(f))
+}
+
+// settleStop lets a Stop in progress run to completion: the gateway's
+// workers are released as they come, and fake time advances so that the
+// bounded shutdown timeouts can fire. It gives up after a fake minute.
+func (w *World) settleStop() {
+	for i := 0; i < 400; i++ {
+		synctest.Wait()
+		w.drainFrames()
+		if gs := w.pendingGates(); len(gs) > 0 {
+			w.release(gs[0])
+			continue
+		}
+		w.mu.Lock()
+		running := w.running
+		w.mu.Unlock()
+		if !running {
+			return
+		}
+		time.Sleep(500 * time.Millisecond)
+	}
+	w.add(Rec{"e": "stophang"})
 }
 
 // Drain drives the system to quiescence: it releases pending gates and
